@@ -653,6 +653,7 @@ func permutations(xs []int) [][]int {
 
 func init() {
 	replayRegistrars = append(replayRegistrars, func() {
+		registerReplay("C06/tag-reuse", func(c flushCase) *fail { return runFlushCase(c, nil) })
 		registerReplay("C06/batches", func(c batchCase) *fail { return runBatchCase(c, nil) })
 		registerReplay("C06/enumerated", func(c batchCase) *fail { return runBatchCase(c, nil) })
 		registerReplay("C06/none-class", runNoneClassCase)
@@ -747,6 +748,25 @@ func TestC06(t *testing.T) {
 			}
 		}
 		h.Exhaustive("1..3 requests held inside the Close of a File (Tclunk; Twalk replacing a bound fid) x every release order x {unrelated getattr, statfs, walk, flush of a held request, flush of an idle tag}")
+	}
+	// a tag is free again as soon as its reply is out - a Tflush's own tag included -
+	// even while the goroutine that wrote the reply is still inside the transport
+	// Write (engine of C14, the re-using request must be served and answered)
+	if env.Shard == 2%env.NShards {
+		for _, tgt := range []string{"read", "getattr", "write"} {
+			for _, rf := range []bool{false, true} {
+				c := flushCase{Native: rf, Target: tgt, HoldAt: 1, Events: []string{"R"}, Reuse: true, ReuseFlush: rf}
+				f := runFlushCase(c, &flushStats{})
+				h.Case(evid.HashJSON(c), true, "tag-reuse-after-reply")
+				if f != nil && strings.HasPrefix(f.Sig, "harness-") {
+					t.Errorf("HARNESS-ERROR %s", f.Msg)
+					continue
+				}
+				if h.report("tag-reuse", f, c) {
+					return
+				}
+			}
+		}
 	}
 	// held calls without a concurrency guarantee delay nothing
 	if env.Shard == 1%env.NShards {
